@@ -33,6 +33,7 @@ class FnRec:
         self.module = None
         self.lost = []          # anchors of this function that no longer match (tolerant weave): (key, message, pinned)
         self.src_addr = None    # address of the function in the source file (addr carries a `__part` suffix for a split proof)
+        self.fnmode = False     # verified on its own (--verify-function) in parallel with the rest of its module
         self.part = None
 
 
@@ -247,6 +248,7 @@ def weave_fn(unit, tmpl_rel, blk):
     rec.addr = blk['addr'] + ('__' + part if part else '')
     rec.src_addr = blk['addr']
     rec.part = part
+    rec.fnmode = 'fnmode' in blk['flags'] and not blk.get('stub')
     rec.src = blk['src']
     rec.tags = blk['kv'].get('tags', [])
     rec.safety = blk['kv'].get('safety', [])
